@@ -301,3 +301,13 @@ func TestC10_KVCutoff(t *testing.T) {
 	st := newStats(t, "C10", "TestC10_KVCutoff", "directly on kv.DB: two branches commit, merge (re-open) and vacuum, every handle opened at a chosen creation time (kv.Open(..., when)), values that revisit earlier content so nodes are shared; kv.DeleteHistoricVersions with cutoffs one second before, exactly at and one second after each creation time; afterwards every version created at or after the cutoff must still exist, every retained version must re-open restricted to itself and give its recorded content (so none refers to a deleted node), and every retired version all of whose successors were created strictly before the cutoff must be gone; non-trivial = a vacuum that deleted some versions and kept more than one")
 	checkRapid(t, st, genCutoffCase, runCutoff)
 }
+
+// The same runner under C11 ("... returns exactly those rows ... until a vacuum whose cutoff
+// covers them"): at SQL level a version's creation time is the wall clock, so cutoffs between
+// creation times only exist here, where handles are opened at chosen times.
+func init() { register("TestC11_KVCutoff", runCutoff) }
+
+func TestC11_KVCutoff(t *testing.T) {
+	st := newStats(t, "C11", "TestC11_KVCutoff", "the kv-level runner of TestC10_KVCutoff under C11: branches commit, merge (re-open merges all current versions: the merge version's creation time is the time of that open) and history is deleted with cutoffs one second before, exactly at and one second after each creation time; every version created at or after the cutoff must still exist and, opened restricted to itself, give its recorded content; non-trivial = a vacuum that deleted some versions and kept more than one")
+	checkRapid(t, st, genCutoffCase, runCutoff)
+}
